@@ -70,8 +70,19 @@ def peers(tier):
                                      rsa_bits=2048, label='pf', faults={('pf', 2, 0): ('trunc_close', 0)}),
         'nonascii-banner': dict(kex=['curve25519-sha256'], key=['ssh-ed25519'], enc=['aes256-ctr'], mac=['hmac-sha2-256'], banner=b'SSH-2.0-Frob\x80SSH'),
     }
+    # a peer whose answers depend on how many connections it has seen (MaxStartups, a rate limiter, one slow accept): connection k of
+    # the audit is refused / closed without a word / never established.  The sequence of connections an audit makes is the same under
+    # every output option, so the same probe is lost and the findings stay the same
+    nth = []
+    for k in range(1, 10):
+        for fname, at, fault in (('closed', 0, ('trunc_close', 0)), ('refused', -1, ('refuse',)), ('unanswered', -1, ('timeout',))):
+            if tier == 'quick' and fname == 'unanswered' and k % 2:
+                continue
+            ps['conn-%d-%s' % (k, fname)] = dict(kex=['curve25519-sha256', 'diffie-hellman-group-exchange-sha256'], key=['rsa-sha2-512', 'ssh-ed25519', 'ecdsa-sha2-nistp256', 'ssh-dss'],
+                                                 enc=['aes256-ctr'], mac=['hmac-sha2-256'], banner=b'SSH-2.0-OpenSSH_7.4', rsa_bits=2048, gex=[1024, 2048], label='pf', faults={('pf', k, at): fault})
+            nth.append('conn-%d-%s' % (k, fname))
     if tier == 'quick':
-        keep = ['clean', 'warn-only', 'fail-mixed', 'terrapin', 'unknown', 'gss', 'rsa2048', 'gex1024', 'ssh1', 'header', 'cert', 'nonascii-banner', 'strict-kex-multi', 'client-role', 'asym', 'asym-clean-s2c', 'probe-fault-rsa1024', 'probe-fault-rsa2048', 'cert-sha2-warn', 'cert-sha2-ca-warn', 'repeat-family-enc', 'repeat-family-mac-kex', 'probe-closed-gex', 'probe-closed-hostkey']
+        keep = nth + ['clean', 'warn-only', 'fail-mixed', 'terrapin', 'unknown', 'gss', 'rsa2048', 'gex1024', 'ssh1', 'header', 'cert', 'nonascii-banner', 'strict-kex-multi', 'client-role', 'asym', 'asym-clean-s2c', 'probe-fault-rsa1024', 'probe-fault-rsa2048', 'cert-sha2-warn', 'cert-sha2-ca-warn', 'repeat-family-enc', 'repeat-family-mac-kex', 'probe-closed-gex', 'probe-closed-hostkey']
         ps = {k: ps[k] for k in keep}
     else:
         # every severity mix of the database per category as extra peers
